@@ -8,6 +8,14 @@ assert(new_require == nil)
 assert(io == nil)
 assert(_new_loadData ~= nil)
 
+-- The time-limit functions are for _lua_invoke only: a module that could
+-- call them could lift or extend its own limit.  Keep them as locals and
+-- take them out of the environment that module environments are cloned from.
+local _set_timeout = _lua_set_timeout
+local _clear_timeout_hook = _lua_clear_timeout_hook
+_lua_set_timeout = nil
+_lua_clear_timeout_hook = nil
+
 local function frame_args_index(new_args, key)
     -- print("frame_args_index", key)
     local v = new_args._orig[key]
@@ -157,7 +165,7 @@ local function _lua_invoke(mod_name, fn_name, frame, page_title, timeout)
     local mod_env = _mw_clone(_python_top_env() or _G)
     _python_append_env(mod_env)
     -- Set time limit for execution of the Lua code
-    _lua_set_timeout(timeout)
+    _set_timeout(timeout)
 
     -- Load the module.  Note that the initializations above must be done before
     -- loading the module, as the module could refer to, e.g., page title
@@ -169,13 +177,13 @@ local function _lua_invoke(mod_name, fn_name, frame, page_title, timeout)
         if initfn then
             success, mod = pcall(initfn)
             if not success then
-                _lua_clear_timeout_hook()
+                _clear_timeout_hook()
                 return false, ("\tLoading module failed in #invoke: " ..
                                mod_name .. "\n" .. tostring(mod))
             end
             _save_mod(mod_name, mod)
         else
-            _lua_clear_timeout_hook()
+            _clear_timeout_hook()
             error("Could not find module " .. mod_name .. ": " .. msg)
         end
     end
@@ -183,12 +191,12 @@ local function _lua_invoke(mod_name, fn_name, frame, page_title, timeout)
     -- Look up the target function in the module
     local fn = mod[fn_name]
     if fn == nil then
-        _lua_clear_timeout_hook()
+        _clear_timeout_hook()
         return false, "\tNo function '" .. fn_name .. "' in module " .. mod_name
     end
     -- Call the function in the module
     local st, v = pcall(fn, frame)
-    _lua_clear_timeout_hook()
+    _clear_timeout_hook()
     -- print("Lua sandbox:", tostring(v))
     if type(v) == "string" then
         return st, v
